@@ -11,7 +11,21 @@ import (
 	"time"
 )
 
-// c12-explore: development aid, prints what the mutant sweep observes (not used by the check driver).
+// Development aids of C12 (not used by the check driver).
+//
+// How the table of known escapes (harness/c12_escapes.json = coq/Tc/Escapes.v, findings.d/C12.json)
+// is (re)generated on an unchanged tree, e.g. after a template or an operator of the rich stream changed:
+//
+//	vh c12-explore -seed 1000 -n 30 -snip 100 -table /tmp/x/all.json        every snippet, 30 programs
+//	vh c12-explore -seed 77 -n 80 -only arith-kind,const-typed -table /tmp/x/two.json   snippets with many variants
+//	vh c12-explore -seed 55 -n 6 -prelude -table /tmp/x/prelude.json        sites of the fixed prelude
+//	vh c12-mktable -root <verif tree> -drop arith-kind,const-typed,prelude /tmp/x/all.json /tmp/x/two.json /tmp/x/prelude.json
+//
+// c12-mktable refuses a key observed with two different classes (the keys must be fine enough for
+// yaegi's verdict to be a function of the key). A finding that has been repaired in yaegi shows up in
+// the check as "implementation differs from model Y" on the keys of that finding: regenerate the table.
+//
+// c12-explore: prints what the mutant sweep observes.
 func init() {
 	register("c12-explore", "C12 development aid: sweep mutants and print escape groups", func(args []string) error {
 		fs := flag.NewFlagSet("c12-explore", flag.ExitOnError)
@@ -398,7 +412,7 @@ func init() {
 				thm = "C12_index_refuted"
 			}
 			fl = append(fl, finding{ID: "C12-esc-" + num, Property: "C12", Status: "open", Regions: regions,
-				What: fmt.Sprintf("%s: %d (operator, context) keys escape the static checks (%d accepted and run, %d panic in the host); keyed list in harness/c12_escapes.json", c12FamilyText[num], len(rs), nran, npanic),
+				What:    fmt.Sprintf("%s: %d (operator, context) keys escape the static checks (%d accepted and run, %d panic in the host); keyed list in harness/c12_escapes.json", c12FamilyText[num], len(rs), nran, npanic),
 				Witness: fmt.Sprintf("%s   -- yaegi: %s (%s) -- go/types: %s", best.Line, best.Class, best.Err, best.Ref), Theorem: thm, Keys: len(rs)})
 		}
 		fl = append(fl, finding{ID: "C12-multi-pkg-init", Property: "C12", Status: "open", Regions: []string{"multi-pkg-init"},
